@@ -62,6 +62,91 @@ def fontflow(run, fx):
         run.broken('FONTFLOW', '*', 'only %d positioning call sites found' % n)
 
 
+def sameterms(run, fx):
+    """UNITS: with and without a font, Slot::finalise builds the slot's advance and position from the SAME design-unit quantities of
+    the slot (advance, justification space, shift, attachment offsets); the font only scales them.  So no float / Position member of
+    Slot is read in Slot::finalise exclusively under `font != 0` (or exclusively under `font == 0`): a term that exists on one side
+    only makes the two results differ by more than the scale."""
+    fn = fx.one('graphite2::Slot::finalise')
+    rec = fx.record('graphite2::Slot')
+    dus = {'graphite2::Slot::' + f['n'] for f in rec['fields'] if (f.get('t') or '').replace('const ', '') in ('float', 'graphite2::Position')}
+    fp = [p_['n'] for p_ in fn.f['params'] if 'Font' in (p_.get('t') or '')]
+    if not fp or not dus:
+        run.broken('UNITS', 'same design-unit terms with and without a font', 'Slot::finalise font parameter / float members not recognised', fn.where())
+        return
+    fname = fp[0]
+    side = {}
+
+    def note(dest, rhs, at):
+        fs = dom.facts_at(fn, at)
+        w = 'font' if any(f[0] == fname and f[1] == '!=' and f[2] == '0' for f in fs) else 'nofont' if any(f[0] == fname and f[1] == '==' and f[2] == '0' for f in fs) else 'both'
+        for x in fn.walk(rhs):
+            if x['k'] == 'MemberExpr' and x.get('d') in dus and fn.render(fn.N(x['c'][0])) == 'this':
+                side.setdefault((dest, x['d']), set()).add(w)
+    # per result variable: which of the slot's design-unit members flow into it, and on which side of `if (font)`
+    for _, e in fn.elements():
+        if e['k'] == 'DeclStmt':
+            for x in e.get('decls', []):
+                if x.get('init') is not None:
+                    note(x.get('n'), x['init'], e['i'])
+        elif e['k'] in ('BinaryOperator', 'CompoundAssignOperator') and e.get('op', '').endswith('=') and e['op'] not in ('==', '!=', '<=', '>='):
+            t_ = fn.strip_all_casts(fn.N(e['c'][0]))
+            if t_['k'] == 'DeclRefExpr':
+                note(fn.render(t_), e['c'][1], e['i'])
+        elif e['k'] == 'CXXOperatorCallExpr' and (e.get('fq') or '').split('::')[-1] in ('operator=', 'operator+=', 'operator*=') and len(e.get('args') or []) == 2:
+            t_ = fn.strip_all_casts(fn.N(e['args'][0]))
+            if t_['k'] == 'DeclRefExpr':
+                note(fn.render(t_), e['args'][1], e['i'])
+    bad = [(m[1], s_, m[0]) for m, s_ in side.items() if s_ == {'font'} or s_ == {'nofont'}]
+    inst = 'same design-unit terms with and without a font'
+    if len(side) < 3:
+        run.broken('UNITS', inst, 'only %d (result, member) flows found in Slot::finalise' % len(side), fn.where())
+    elif bad:
+        m, s_, dest_ = bad[0]
+        run.violated('UNITS', inst, fn.where(), 'Slot::finalise lets %s flow into `%s` only when %s: that term is part of the result on one side only, so positions with a font are '
+                     'no longer the design-unit positions times P/upem' % (m.split('::')[-1], dest_, 'a font is given' if s_ == {'font'} else 'no font is given'))
+    else:
+        run.held('UNITS', inst, fn.where(), '%d (result variable, member) flows, none on one side of `if (font)` only' % len(side))
+
+
+def lastposition(run):
+    """Segment::justify positions the line with the caller's font as its LAST positioning step, in the plain build and in the build with
+    tracing compiled in (which positions once more with a null font to dump design-unit slots): no positionSlots call with a null font
+    is reachable after the call that carries the font parameter."""
+    from .util import reaches_avoiding
+    for cfg in ('Q0', 'tracejust'):
+        fx = run.facts(cfg)
+        fn = fx.one('graphite2::Segment::justify')
+        fp = [p_['vid'] for p_ in fn.f['params'] if 'Font' in (p_.get('t') or '')]
+        calls = calls_in(fn, 'graphite2::Segment::positionSlots')
+        withfont = [e for e in calls if fn.strip_all_casts(fn.N(e['args'][0])).get('vid') in fp]
+        nullfont = [e for e in calls if e not in withfont]
+        inst = '[%s] justify positions with the font last' % cfg
+        if len(withfont) != 1:
+            run.broken('FONTFLOW', inst, 'expected one positionSlots(font, ..) call in Segment::justify, found %d' % len(withfont), fn.where())
+            continue
+        late = [e for e in nullfont if reaches_avoiding(fn, withfont[0], e, avoid=())]
+        if late:
+            run.violated('FONTFLOW', inst, fn.loc(late[0]), 'after positionSlots(font, ..) at line %s, Segment::justify positions the line again with a null font at line %s: the origins the caller '
+                         'reads are design units while the width returned was scaled' % (withfont[0]['ln'], late[0]['ln']))
+        else:
+            run.held('FONTFLOW', inst, fn.loc(withfont[0]), '%d null-font call(s), none after it' % len(nullfont))
+
+
+def fontface(run, fx):
+    """the face a segment is shaped with is the caller's face argument; the font contributes a scale and hinted advances, never a face:
+    Font::face() is called only by the default advance callback (which needs the glyph metrics of the font's own face)."""
+    users = sorted({fn.q for fn, e in callers_of(fx, 'graphite2::Font::face')})
+    allowed = {'graphite2::Face::default_glyph_advance'}
+    if not users:
+        run.held('FONTFLOW', 'who asks a font for its face', '', 'nobody', False)
+    elif set(users) <= allowed:
+        run.held('FONTFLOW', 'who asks a font for its face', '', str(users))
+    else:
+        run.violated('FONTFLOW', 'who asks a font for its face', '', 'Font::face() is called from %s: a face taken from the gr_font makes glyph ids, attachments and associations depend on '
+                     'the font passed (only %s may ask, for the default advance)' % (sorted(set(users) - allowed), sorted(allowed)))
+
+
 def scaleuse(run, fx):
     users = set(fn.q for fn, e in callers_of(fx, 'graphite2::Font::scale'))
     if users <= SCALE_READERS and users:
@@ -167,9 +252,12 @@ def units(run, fx):
 def run(run):
     fx = run.facts('Q0')
     fontflow(run, fx)
+    lastposition(run)
+    fontface(run, fx)
     scaleuse(run, fx)
     ppmflow(run, fx)
     units(run, fx)
+    sameterms(run, fx)
     fontuse(run, fx)
     from . import c09
     for f in [f for f in fx.fns_named('graphite2::Font::Font') if not f.f.get('implicit')]:
